@@ -94,8 +94,14 @@ func genC15(g *Gen) {
 			ph = phases[enumPhase]
 		}
 		switch {
-		case faultKind < 6: // connection loss
+		case faultKind < 5: // connection loss
 			p.Events = append(p.Events, Event{Kind: "kill-conn", When: When{Token: tok, Phase: ph}, Rst: g.R.Pct(50)})
+		case faultKind < 7 && p.Variant != "noarm": // the peer's reset meets the proxy's next write on that connection (no hang-up event first)
+			if g.R.Pct(50) {
+				p.Events = append(p.Events, Event{Kind: "rst-at-write", When: When{Token: tok, Phase: "written"}})
+			} else {
+				p.Events = append(p.Events, Event{Kind: "rst-at-write", When: When{Step: g.R.Range(2, 40)}, Node: base.Nodes[g.R.Intn(len(base.Nodes))].Addr})
+			}
 		case faultKind < 8: // whole node goes away, comes back later
 			node := base.Nodes[g.R.Intn(len(base.Nodes))].Addr
 			p.Events = append(p.Events, Event{Kind: "node-down", When: When{Token: tok, Phase: ph}, Node: node})
@@ -145,7 +151,8 @@ func checkC15(d *Driver, res *Result) {
 		rx.AllowAnyErrorForUnknown = true
 	}
 	d.StdReplyCheck("C15", rx)
-	faults := d.Counters["backend_conn_killed"] + d.Counters["ev_set-topo"]
+	d.Counters["c15_rst_at_write_fired"] = d.K.Stats.RstAtWrite
+	faults := d.Counters["backend_conn_killed"] + d.Counters["ev_set-topo"] + d.K.Stats.RstAtWrite
 	res.Nontrivial = faults > 0
 	d.Counters["c15_faults"] = faults
 	var ev []string
